@@ -119,15 +119,20 @@ class EndpointsEmitter:
         Args:
             operations: List of all operations across all tags.
         """
-        seen_methods: dict[str, int] = {}
+        seen_methods: set[str] = set()
         for op in operations:
             method_name = NameSanitizer.sanitize_method_name(op.operation_id)
             if method_name in seen_methods:
-                seen_methods[method_name] += 1
-                new_op_id = f"{op.operation_id}_{seen_methods[method_name]}"
+                # Suffix until the resulting method name is really unused (the suffixed name may itself
+                # be taken by another operation, e.g. ids "a", "a", "a_2"), and remember the final name
+                counter = 2
+                new_op_id = f"{op.operation_id}_{counter}"
+                while NameSanitizer.sanitize_method_name(new_op_id) in seen_methods:
+                    counter += 1
+                    new_op_id = f"{op.operation_id}_{counter}"
                 op.operation_id = new_op_id
-            else:
-                seen_methods[method_name] = 1
+                method_name = NameSanitizer.sanitize_method_name(new_op_id)
+            seen_methods.add(method_name)
 
     def emit(self, operations: List[IROperation], output_dir_str: str) -> List[str]:
         """Render endpoint client files per tag under <output_dir>/endpoints.
